@@ -114,11 +114,9 @@ impl Http1Parser {
     pub fn parse_request(&self, data: &[u8]) -> Result<Option<Http1Request>, Http1ParseError> {
         let start_time = Instant::now();
 
-        let data_str = std::str::from_utf8(data).map_err(|_| Http1ParseError::InvalidUtf8)?;
-
-        if !data_str.contains("\r\n\r\n") && !data_str.contains("\n\n") {
+        let Some(data_str) = Self::head_str(data)? else {
             return Ok(None);
-        }
+        };
         let lines: Vec<&str> = if data_str.contains("\r\n") {
             data_str.split("\r\n").collect()
         } else {
@@ -206,11 +204,9 @@ impl Http1Parser {
     pub fn parse_response(&self, data: &[u8]) -> Result<Option<Http1Response>, Http1ParseError> {
         let start_time = Instant::now();
 
-        let data_str = std::str::from_utf8(data).map_err(|_| Http1ParseError::InvalidUtf8)?;
-
-        if !data_str.contains("\r\n\r\n") && !data_str.contains("\n\n") {
+        let Some(data_str) = Self::head_str(data)? else {
             return Ok(None);
-        }
+        };
         let lines: Vec<&str> = if data_str.contains("\r\n") {
             data_str.split("\r\n").collect()
         } else {
@@ -261,6 +257,32 @@ impl Http1Parser {
             raw_status_line: lines[0].to_string(),
             parsing_metadata: final_metadata,
         }))
+    }
+
+    /// Returns the message head (start line and header fields up to and including the
+    /// blank line) as text, or `None` while the blank line has not arrived yet.
+    /// Only the head has to be valid UTF-8: the body may be arbitrary bytes.
+    fn head_str(data: &[u8]) -> Result<Option<&str>, Http1ParseError> {
+        let crlf_end = data
+            .windows(4)
+            .position(|w| w == b"\r\n\r\n")
+            .map(|p| p.saturating_add(4));
+        let lf_end = data
+            .windows(2)
+            .position(|w| w == b"\n\n")
+            .map(|p| p.saturating_add(2));
+        let head_end = match (crlf_end, lf_end) {
+            (Some(a), Some(b)) => Some(a.min(b)),
+            (a, b) => a.or(b),
+        };
+        match head_end {
+            Some(end) => std::str::from_utf8(&data[..end])
+                .map(Some)
+                .map_err(|_| Http1ParseError::InvalidUtf8),
+            None => std::str::from_utf8(data)
+                .map(|_| None)
+                .map_err(|_| Http1ParseError::InvalidUtf8),
+        }
     }
 
     fn parse_request_line(
